@@ -32,6 +32,25 @@ CHECKS = {
             "Panics, fatal stack overflows and hangs are observations (ret.kind) judged by TLC; malformed options included.", "DESIGN.md C06"),
     "C08": ("TLA+ Contract invariant C08 on real Redefine + follow-up call traces", "Redefine over single-input converter graphs, all filters; the follow-up "
             "call of the redefined function is recorded and judged too.", "DESIGN.md C08"),
+    "C07": ("TLA+ Contract invariant C07 on the spec-enumerated name-affinity families (MC_Family C07a/C07b): Resolver model over all "
+            "Dijkstra tie-breaks + real traces with 25/100 repetitions per scenario",
+            "Every scenario of the families (2-4 competing same-typed named inputs in every order, converter forms, registration orders, "
+            "reverse converter) is explored in the faithful Resolver model over all tie-breaks of the negative-weight Dijkstra and executed "
+            "repeatedly on the real library; TLC judges which value was converted and which converter ran.", "DESIGN.md C07"),
+    "C18": ("TLA+ model of dijkstra.go (all 3-vertex digraphs, all tie-breaks) + trace validation of real runs (pop hook, results) against "
+            "the model and the declarative Bellman-Ford statement",
+            "Design: exhaustive TLC over every digraph on 3 vertices/weight set/source/pop order. Code: graphs built through the public API, "
+            "every heap pop recorded through the verif hook must be a Pop step of the model (minimum-distance unvisited vertex), the returned "
+            "maps must equal the model state and satisfy the declarative property.", "DESIGN.md C18"),
+    "C19": ("TLA+ GraphADT (map objects + handles) model-checked exhaustively; TLC-generated and random histories replayed on real Graph "
+            "values with a full dump after every operation, validated by GraphTrace",
+            "Design: all histories up to the bound satisfy mirror / incident-edge / agreement / reverse-twice / copy-freshness. Code: after "
+            "every operation the three maps of every live handle must equal the projection of the specification state.", "DESIGN.md C19"),
+    "C20": ("PlusCal models of dfs/kahn/tarjan model-checked on all 3-vertex digraphs x decline sets x starts x iteration orders; real runs "
+            "judged by TLC against declarative definitions (TravTrace)",
+            "Design: exhaustive. Code: DFS reports/descents, Kahn order or panic, components and TopoShortestPath recorded on all 512 small "
+            "digraphs and random larger ones, judged against restricted reachability, topological order, mutual-reachability classes and "
+            "Bellman-Ford distances.", "DESIGN.md C20"),
     "C13": ("TLA+ Contract invariant C13 on real traces", "Structured fields of the unsatisfied-argument error (Args, Inputs, Converters, text) are recorded "
             "and compared by TLC with the scenario.", "DESIGN.md C13"),
 }
